@@ -5,6 +5,26 @@ import json, os
 HERE = os.path.dirname(os.path.dirname(os.path.abspath(__file__)))
 
 CHECKS = {
+ "C03": dict(
+    design="DESIGN.md §3 C03",
+    technique="property-based testing (Hypothesis) with metamorphic permutation of query pairs; oracles: recording user function + independent reference flattening",
+    text="Exploration: generated signatures of primitives, primitive arrays, nested objects and arrays of objects are spelled as query strings by an independent reference flattener (a.b.c, a[0].b, repeated keys, percent-encoding), with order-preserving permutations of the pairs, contiguous and sparse indices, four hier_delim choices, strict_arrays on/off and validator None/soft, and sent through WsgiApplication GET; the recorded arguments must equal the sent values with arrays in index order, and a single primitive return must be sent as its exact bytes. Held on everything explored; not a proof.",
+    note="Trusted: pbt/ref_flat.py, urllib.parse.quote. POST form bodies are not exercised (werkzeug is not installed)."),
+ "C05": dict(
+    design="DESIGN.md §3 C05",
+    technique="property-based testing (Hypothesis) + exhaustive enumeration of fixed-width integer bounds; oracle: independent constraint predicate, cross-protocol agreement, user-function recorder",
+    text="Exploration: one constrained type from the facet lattice (nillable, min/max occurs, ge/gt/le/lt, fixed width, length, pattern, enumeration) at four positions (argument, nested field, array member, XML attribute) receives values on / just inside / just outside every bound, ill-formed and Python-only literals, explicit nulls, xsi:nil variants, absences and occurrence counts 0..max+2, rendered into XmlDocument, Soap11, JSON, YAML, MessagePack and HttpRpc with validator='soft'; accept <=> the function ran with the equal value, reject <=> it did not run and the fault code is in the Client family. Fixed-width bounds are enumerated exhaustively (all 8/16-bit values in the thorough tier). Held on everything explored; not a proof.",
+    note="Trusted: the ten-line-per-facet reference predicate in pbt/props/c05.py (verdict/valid_value), Python re for the shared regex subset."),
+ "C07": dict(
+    design="DESIGN.md §3 C07",
+    technique="property-based testing (Hypothesis) over generated applications; oracles: own QName-closure resolver, structural correspondence, byte identity across rebuilds and PYTHONHASHSEED values in fresh subprocesses, zeep client built from the WSDL bytes alone",
+    text="Exploration: generated applications (1-4 services, custom operation/in-message names, in/out headers, declared faults, port types, 1-3 namespaces, all body styles, Soap11/Soap12) are rendered to WSDL; every QName-valued attribute must resolve, every method must map to exactly one portType operation with matching binding operation, messages and faults, the bytes must be identical across two in-process builds and fresh processes under 3 hash seeds, and zeep (given only the bytes, with a transport whose load() raises) must produce requests the server decodes to the sent values and decode the replies to the returned values. Held on everything explored; not a proof.",
+    note="Trusted: zeep 4.3 (calibrated: its request must be read back by the reference decoder first), lxml parsing, pbt/ref_xml.py."),
+ "C09": dict(
+    design="DESIGN.md §3 C09",
+    technique="property-based testing (Hypothesis); oracles: independent per-protocol fault decoders, documented HTTP status table, secret-token search in body and headers",
+    text="Exploration: user functions raise built-in and generated Fault classes with generated codes (Client/Server plus look-alike and free first segments, 0-3 sub-codes), Unicode messages and nested detail dicts, or non-Fault exceptions whose message, args, __str__, __repr__, class name and a frame local carry secret tokens, under eight output protocols through the pipeline and WSGI; the decoded fault must equal the raised one, the return value must be absent, the HTTP status must follow the documented table, and no token may occur in any encoding. Held on everything explored; not a proof.",
+    note="Trusted: the fault decoders in pbt/props/c09.py, stdlib json / PyYAML / msgpack / lxml as parsers."),
  "C02": dict(
     design="DESIGN.md §3 C02",
     technique="property-based testing (Hypothesis) over generated programs x inputs x configurations; oracles: recording user function + independent reference dict codec over stdlib json / PyYAML / msgpack",
